@@ -8,7 +8,8 @@ SPEC = {
         'C13_tx_sort_order_independent', 'C13_tx_sort_is_stable_grouping', 'C13_tx_sort_nonvacuous',
         'C13_verify_schedule_independent',
         'C13_gather_schedule_independent', 'C13_gather_nonvacuous',
-        'C13_merkle_root_schedule_independent', 'C13_child_chains_schedule_independent',
+        'C13_merkle_root_schedule_independent', 'C13_tx_root_cpu_independent', 'C13_tx_root_nonvacuous',
+        'C13_child_chains_schedule_independent',
         'C13_del_dup_key_first_seen_last_value', 'C13_del_dup_key_nonvacuous',
         'C13_del_dup_tx_keeps_last',
     ],
@@ -32,8 +33,16 @@ SPEC = {
             'raw EventExecTxList receipts, receipt data, state KV set, state root / tx root / block, EventAddBlock and '
             'EventDelBlock local KV sets, the stored block detail, removed transactions; at the end a dump of the '
             'blockchain database. One CRuns case per sequence holds one digest vector per run; all must be equal. '
+            '(c) large tx roots (a test): blocks of 81-8300 (thorough: up to ~9500) cheap main-chain transactions, sizes '
+            'around 512*k for the taskset widths k = 2/3/4/8/16 (where GetMerkleRoot reaches its 256-leaf chunk cap and '
+            'pads the last chunk) plus seeded random sizes; the same worker processes compute, before and after their '
+            'block sequences, merkle.CalcMerkleRoot below and above ForkRootHash, TxHash and block hash of '
+            'util.CreateNewBlock, merkle.GetMerkleRoot of the hash list and merkle.CalcMerkleRootCache. One CRoot case '
+            'per size: every run must return the roots of the harness-side sequential reference (pairwise double '
+            'SHA-256, last element duplicated on odd levels; no call into common/merkle). '
             'non-trivial = the input has a duplicate / two titles / an invalid signature / two child chains / more '
-            'transactions than blocks; distinct = distinct Gallina case terms',
+            'transactions than blocks / a run with n >= 512*NumCPU, NumCPU >= 2, n mod 256 != 0; distinct = distinct '
+            'Gallina case terms',
     'trusted_base': [
         'only the order-sensitive combinators are modelled; everything else in block execution (dapp code, state tree, '
         'process-global caches) is covered by the repeated runs alone, which are a test',
@@ -45,6 +54,10 @@ SPEC = {
         '(C16, C18); the harness checks ChildHash_i against GetMerkleRoot of the slice the implementation reports',
         'hook executor/c13_verif.go swaps the plugin table for the duration of one sortedPluginNames call',
         'SHA-256 digests (first 63 bits shipped to Coq) stand for byte equality of the observables',
+        'C13_tx_root_cpu_independent: log2 / pow2 / 256 cap / calcLevel / padding are C18.Model (par_step, child_root, '
+        'get_merkle_root) and the CPU-count half of the proof is C18 parallel_eq_sequential (imported); hash2 and the '
+        'nil hash are parameters (any hash function); tx.Hash / tx.FullHash / block header hash are taken from the '
+        'implementation when the large-root reference is computed (C16)',
     ],
     'assumptions': [
         'transaction hashes and keys are compared as Go strings (byte equality)',
@@ -54,10 +67,12 @@ SPEC = {
     'manifest': {
         'level_text': 'partial: unbounded Coq theorems that each order-sensitive combinator of block execution '
                       '(sorted plugin iteration, TransactionSort, signature fan-out, merkle gather-by-index, child-chain '
-                      'table) is independent of map iteration order / goroutine schedule, and that DelDupKey / DelDupTx '
+                      'table) is independent of map iteration order / goroutine schedule, that the transaction root is '
+                      'the sequential root for every CPU count and chunk completion order, and that DelDupKey / DelDupTx '
                       'compute first-seen-order-last-value / last-occurrence; the Go functions agree with the model on '
                       'every generated input; whole-block determinism is tested by repeated execution under varied '
-                      'process history, GOMAXPROCS and CPU widths',
+                      'process history, GOMAXPROCS and CPU widths, and large transaction roots are compared with a '
+                      'sequential reference under every width',
         'level_note': 'hidden nondeterminism outside the modelled combinators can only be caught by the repeated runs',
         'technique': 'Coq proof (permutation invariance, simulation of the in-place loops) + in-kernel correspondence '
                      'check + repeated execution in re-executed worker processes',
@@ -76,7 +91,15 @@ def extra(ctx):
                      'runs': impl.get('runs'), 'first_difference': impl.get('first_difference'),
                      'per_block_proposed_kept_ok_pack_localkvs': impl.get('per_block_proposed_kept_ok_pack_localkvs'),
                      'note': impl.get('note')})
+    roots = []
+    for c in ctx.cases:
+        if str(c.get('kind', '')).startswith('troot'):
+            impl = c.get('impl') or {}
+            roots.append({'txs': impl.get('txs'), 'runs': len(impl.get('runs') or []),
+                          'runs_with_cap_and_padded_last_chunk': impl.get('runs_with_cap_and_padded_last_chunk'),
+                          'first_difference': impl.get('first_difference')})
     return {'violations': [], 'known': [],
             'coverage': {'repeated_execution': summ,
+                         'large_tx_roots': roots,
                          'repeated_execution_note': 'part (b) is repeated execution, i.e. a test: it samples schedules and '
                                                     'process histories, it does not quantify over them'}}
